@@ -105,7 +105,7 @@ class Link(object):
     def peer_received(self, n=None):
         if self.pup:
             if n is not None:
-                self.pup.wait_received(n)
+                self.pup.wait_received(n, timeout=10.0, strict=False)
             return self.pup.received()
         if self.peer_sock is not None:
             self._start_drain()
